@@ -67,7 +67,7 @@ pub struct LtServer {
 
 pub fn lt_absent() -> Value {
     json!({"code":0,"realm_present":false,"realm":"","nonce_present":false,"nonce":"",
-           "cookie":false,"pa":false,"ua":false,"algs_present":false,"algs":[],"alg":-1,
+           "cookie":false,"pa":false,"ua":false,"algs_present":false,"algs":[],"algs_p":[],"alg_p":0,"alg":-1,
            "user":"absent","mi_keys":[],"sha_keys":[]})
 }
 
@@ -132,6 +132,14 @@ pub fn lt_descriptor(cfg: &Cfg, b: &[u8], p: &Parsed) -> Value {
         .filter(|a| a.value.len() >= 4)
         .map(|a| u16::from_be_bytes([a.value[0], a.value[1]]) as i64)
         .unwrap_or(-1);
+    // parameter bytes of PASSWORD-ALGORITHM (as far as its own length field says)
+    let alg_p = first_admitted(p, obs::T_PWD_ALG)
+        .filter(|a| a.value.len() >= 4)
+        .map(|a| {
+            let l = u16::from_be_bytes([a.value[2], a.value[3]]) as usize;
+            obs::params_code(&a.value[4..(4 + l).min(a.value.len())])
+        })
+        .unwrap_or(0);
     let realm_s = realm.map(|a| String::from_utf8_lossy(&a.value).to_string()).unwrap_or_default();
     let user = if let Some(a) = first_admitted(p, obs::T_USERNAME) {
         if a.value == cfg.user.as_bytes() { "name" } else { "other" }
@@ -147,7 +155,9 @@ pub fn lt_descriptor(cfg: &Cfg, b: &[u8], p: &Parsed) -> Value {
            "nonce":nonce.map(|a| String::from_utf8_lossy(&a.value).to_string()).unwrap_or_default(),
            "cookie":bits.is_some(),"pa":bits.map(|b| b.0).unwrap_or(false),"ua":bits.map(|b| b.1).unwrap_or(false),
            "algs_present":algs.is_some(),
-           "algs":algs.map(|v| v.iter().map(|x| x.0 as u64).collect::<Vec<u64>>()).unwrap_or_default(),
+           "algs":algs.as_ref().map(|v| v.iter().map(|x| x.0 as u64).collect::<Vec<u64>>()).unwrap_or_default(),
+           "algs_p":algs.as_ref().map(|v| v.iter().map(|x| obs::params_code(&x.1)).collect::<Vec<u64>>()).unwrap_or_default(),
+           "alg_p":alg_p,
            "alg":alg,"user":user,
            "dup": dup(obs::T_REALM) || dup(obs::T_NONCE) || dup(obs::T_PWD_ALGS) || dup(obs::T_ERROR),
            "mi_keys":lt_key_names(cfg, b, p, obs::T_MI),"sha_keys":lt_key_names(cfg, b, p, obs::T_SHA)})
@@ -277,10 +287,17 @@ impl LtServer {
                     "sha_md5" => Some(vec![2, 1]),
                     "unsup" => Some(vec![7]),
                     "unsup_md5" => Some(vec![9, 1]),
+                    "sha_p" => Some(vec![2]),
+                    "md5_sha_p" => Some(vec![1, 2]),
                     _ => None,
                 };
+                // "_p": the SHA-256 entry carries parameter bytes (the RFC defines none; a client
+                // echoes whatever the entry it chose was sent with)
+                let with_params = lt["algs"].as_str().unwrap_or("").ends_with("_p");
                 if let Some(l) = &list {
-                    items.push(Item::Raw(obs::T_PWD_ALGS, obs::password_algorithms_value(l)));
+                    let entries: Vec<(u16, Vec<u8>)> = l.iter().map(|a| (*a, if with_params && *a == 2 { vec![0xA1, 0xB2, 0xC3] } else { vec![] })).collect();
+                    let _ = obs::password_algorithms_value(l);
+                    items.push(Item::Raw(obs::T_PWD_ALGS, obs::password_algorithms_value_p(&entries)));
                     alg = if l.contains(&2) { 2 } else { 1 };
                 } else {
                     alg = 1;
